@@ -68,6 +68,7 @@ class Oracle(object):
         self.faults = faults
         self.max_faults = max_faults
         self.nfault = 0
+        self.fault_kinds = 4
 
     def _congruent(self, prev_calls, vec, vals):
         ctx = self.ctx
@@ -83,7 +84,7 @@ class Oracle(object):
         j = len(self.calls)
         fault = 'ok'
         if self.faults and (self.max_faults is None or self.nfault < self.max_faults):
-            fault = FAULTS[ctx.choice('fault_call%d' % j, 4)]
+            fault = FAULTS[ctx.choice('fault_call%d' % j, self.fault_kinds)]
         if fault != 'ok':
             self.nfault += 1
             self.calls.append((vec, None, fault))
